@@ -480,9 +480,11 @@ impl StorageEngine {
         for shard in &database.shards {
             let mut shard_guard = shard.write().unwrap();
             
-            // Calculate memory to free from this shard
+            // Calculate memory to free from this shard. Every key that existed is modified
+            // by the flush: record it so that a WATCH on it makes EXEC fail.
             for (key, stored_value) in shard_guard.data.iter() {
                 total_memory_to_free += self.calculate_value_size(key, &stored_value.value);
+                shard_guard.watch_tracker.mark_key_modified(key);
             }
             
             shard_guard.data.clear();
